@@ -11,7 +11,9 @@ from prov.identifier import Identifier, Namespace, QualifiedName
 EX = Namespace("ex", "http://example.org/")
 EX2 = Namespace("ex2", "http://example.org/2/")
 STRINGS = ["plain", "ünïcødé ファイル", 'quo"te', "two\nlines", "\U0001F600 astral", "<a&b>", "back\\slash", "  spaced ",
-           "line\u2028separator", "paragraph\u2029separator", "next\u0085line", "tab\there"]
+           "line\u2028separator", "paragraph\u2029separator", "next\u0085line", "tab\there",
+           # valid Unicode that is not in normalisation form C (decomposed accent, singletons): must come back as typed
+           "Ame\u0301lie", "\u212b ngstro\u0308m \u2126"]
 TIMES = [datetime.datetime(2012, 3, 31, 9, 21), datetime.datetime(1999, 12, 31, 23, 59, 59, 999000),
          datetime.datetime(2012, 3, 31, 9, 21, tzinfo=datetime.timezone.utc),
          datetime.datetime(2020, 2, 29, 12, 0, tzinfo=datetime.timezone(datetime.timedelta(hours=5, minutes=30)))]
@@ -31,7 +33,7 @@ def value(rng):
         return Identifier("http://example.org/uri/%d" % rng.randrange(5))
     if r < 0.9:
         return rng.choice([EX, EX2])["v%d" % rng.randrange(5)]
-    return M.Literal(rng.choice(STRINGS), langtag=rng.choice(["en", "fr-CA"]))
+    return M.Literal(rng.choice(STRINGS), langtag=rng.choice(["en", "fr-CA", "en-gb", "EN", "zh-hant-TW"]))
 
 
 def attrs(rng, n=None):
@@ -132,4 +134,17 @@ def big_doc(rng, n_entities):
     for i in range(n_entities):
         w = rng.choice(words)
         d.entity(EX["big%d" % i], [(EX["note"], w * rng.randrange(12, 40)), ("prov:label", M.Literal(w * 3 + str(i), langtag="ja"))])
+    return d
+
+
+def all_strings_doc():
+    """one fixed document holding every string of the pool once (as an attribute value, as a label, language-tagged) —
+    so that no run depends on which strings the random documents happened to draw"""
+    d = M.ProvDocument()
+    d.add_namespace(EX)
+    for i, s_ in enumerate(STRINGS):
+        d.entity(EX["s%d" % i], [(EX["k"], s_), ("prov:label", s_), (EX["k"], M.Literal(s_, langtag="fr"))])
+    b = d.bundle(EX["sb"])
+    for i, s_ in enumerate(STRINGS):
+        b.agent(EX["t%d" % i], [("prov:label", M.Literal(s_, langtag="en-gb")), (EX["k"], s_)])
     return d
